@@ -86,9 +86,56 @@ func c11Long(c *hx.Ctx, r *hx.RNG) {
 	}
 }
 
+// c11LongF: f format (also e, g) of a value with an integer part of exactly `intDigits` digits and a short fraction - every
+// length in a window around 2^16 and 2^17 digits is visited once per run: a conversion that works in blocks of about
+// 64 KiB has its seams there, and the radix point may fall exactly on one.
+func c11LongF(c *hx.Ctx, r *hx.RNG, intDigits int) {
+	fd := r.Range(1, 40)
+	ds := r.Digits(intDigits + fd)
+	if ds[len(ds)-1] == '0' {
+		ds[len(ds)-1] = '7'
+	}
+	v := oracle.Val{Form: oracle.Finite, Neg: r.Bool(), Coef: hx.CoefOf(ds), Exp: -int64(fd)}
+	x := hx.Mk(v, uint(len(ds)+r.Intn(3)*r.Intn(40)), r.Mode())
+	ft := []string{"f", "f", "f", "e", "g"}[r.Intn(5)]
+	what := fmt.Sprintf("%s of a value with %d integer and %d fractional digits (starts %.30s)", ft, intDigits, fd, ds)
+	c.Note(what)
+	var text string
+	pi := hx.Try(func() { text = x.Text(ft[0], -1) })
+	c.Eval(hx.HashStr(what), true, "format/"+ft+"/integer-part-around-2^16-digits")
+	if pi != nil {
+		c.Violate("panic", fmt.Sprintf("%s: %s panic %q at %s", what, pi.Class, pi.Text, pi.Stack), "")
+		return
+	}
+	if got, want := sigDigits(text), strings.TrimRight(string(ds), "0"); got != want {
+		c.Violate("digits-differ", fmt.Sprintf("%s: the text (%d bytes) carries %d significant digits, x has %d", what, len(text), len(got), len(want)), "")
+		return
+	}
+	if ft == "f" {
+		if i := strings.IndexByte(text, '.'); i < 0 || len(strings.TrimLeft(text[:i], "-")) != intDigits {
+			c.Violate("round-trip-differs", fmt.Sprintf("%s: the radix point is at byte %d of %d (want %d integer digits in front of it)", what, i, len(text), intDigits), "")
+			return
+		}
+	}
+	z := new(decimal.Decimal).SetPrec(x.MinPrec() + uint(r.Intn(2)))
+	_, ok := z.SetString(text)
+	c.Count("round_trips", 1)
+	if !ok || z.Cmp(x) != 0 || z.Signbit() != x.Signbit() {
+		c.Violate("round-trip-differs", fmt.Sprintf("%s: the text reads back (ok=%v) as a different value", what, ok), "")
+	}
+}
+
 func c11Case(c *hx.Ctx, r *hx.RNG, idx int64) {
 	if idx%4000000 == 23 {
 		c11Long(c, r)
+		return
+	}
+	switch m := idx % 1000000; {
+	case m >= 1000 && m < 1140:
+		c11LongF(c, r, 65536-70+int(m-1000))
+		return
+	case m >= 1200 && m < 1340:
+		c11LongF(c, r, 131072-100+int(m-1200))
 		return
 	}
 	var v oracle.Val
